@@ -1,7 +1,7 @@
 (* C10 — nearest-centre assignment and per-trajectory bookkeeping are exact.
    gen_partition_indices / gen_partition_list are regenerated from enspara/ra/ra.py on every run. *)
 From Coq Require Import List ZArith QArith.
-From EV Require Import PySlice PartitionBase PartitionGen Cluster ClusterBase Partition PartitionProofs.
+From EV Require Import PySlice PartitionBase PartitionGen Cluster ClusterBase Partition PartitionProofs KcGuardBase ClusterGen ClusterSkel ClusterGenProofs.
 Import ListNotations.
 
 (* every frame gets a centre at minimal distance and exactly that distance; ties go to the first
@@ -17,6 +17,12 @@ Print Assumptions c10_nearest_is_minimal.
 Theorem c10_nearest_defined : forall D f cs, cs <> [] -> exists j d, nearest D f cs = Some (j, d).
 Proof. exact nearest_some. Qed.
 Print Assumptions c10_nearest_defined.
+
+(* the sweep's test (dist < distances, distances starting at +inf) as regenerated from util.py *)
+Theorem c10_source_nearest_sweep_is_model : forall D f cs i bi bd,
+  nearest_from_skel D gen_nearest_improves f i bi bd cs = nearest_from D f i bi bd cs.
+Proof. exact gen_nearest_is_model. Qed.
+Print Assumptions c10_source_nearest_sweep_is_model.
 
 (* splitting by trajectory lengths preserves every value and its order; concatenation restores it *)
 Theorem c10_partition_list_concat : forall (A : Type) (l : list A) lens,
